@@ -98,7 +98,7 @@ class ReconStub:
         return iter(model_stream(tree, self.parser))
 
 
-def model_stream(tree, parser):
+def model_stream(tree, parser, any_origin=False):
     """tokens of `tree` according to the grammar table model: pick the production of the expected non-terminal whose
     label and child shape match the node; emit fixed text for filtered terminals, child streams for the rest."""
     from lark.grammar import Terminal
@@ -179,7 +179,38 @@ def model_stream(tree, parser):
                 return res
         return None
 
+    if any_origin:
+        # stream of a node that is not a whole profile: try it as a derivation of every non-terminal
+        for origin in by_origin:
+            if origin.startswith("_"):
+                continue
+            res = node_stream(origin, tree)
+            if res is not None:
+                return res
+        raise ValueError("node does not conform to the grammar model: %r" % (tree,))
     res = node_stream("start", tree)
     if res is None:
         raise ValueError("tree does not conform to the grammar model: %r" % (tree,))
     return res
+
+
+def m_hash(x):
+    """hash() of a lark Tree / token with symbolic text: a structural key (equal structure and identical terms -> equal
+    hash; distinct -> distinct, i.e. hash collisions are assumed away). Other values: the real hash."""
+    def key(v):
+        if isinstance(v, lark.Tree):
+            return ("T", str(v.data), tuple(key(c) for c in v.children))
+        if isinstance(v, SymToken):
+            return ("t", v.type, tuple(c if isinstance(c, int) else ("z", c.get_id()) for c in v.value.cells))
+        if isinstance(v, lark.Token):
+            return ("t", v.type, tuple(map(ord, str(v))))
+        if isinstance(v, SymStr):
+            return ("s", tuple(c if isinstance(c, int) else ("z", c.get_id()) for c in v.cells))
+        return ("o", v)
+    if isinstance(x, (lark.Tree, SymToken)):
+        return hash(key(x))
+    return hash(x)
+
+
+m_hash.__symx_model__ = True
+symx.BUILTIN_MODELS["hash"] = m_hash
